@@ -56,6 +56,11 @@ struct T {
   uint64_t hist = 0x9e3779b97f4a7c15ull;
   uint64_t ring_epoch = ~0ull;
   std::vector<std::pair<const void*, uint64_t>> ring;
+  // store-buffer mode: stores of this thread that are not yet visible to the others. The store itself has been written
+  // through to memory (so the owner reads its own writes and memory safety is exactly that of the SC run); `visible` is
+  // what every other thread still sees at that address, `vis_lochash` the identity of that visible write.
+  struct SbEnt { const void* addr; uint64_t visible; uint64_t vis_lochash; uint64_t written; };
+  std::vector<SbEnt> sb;
 };
 
 std::atomic<int> g_ctl_go{0};
@@ -78,6 +83,7 @@ const uint16_t* g_prefix = nullptr;
 uint32_t g_nprefix = 0;
 uint64_t g_steps = 0;
 uint64_t g_write_epoch = 0;
+int g_sb_total = 0;  // buffered stores over all threads (store-buffer mode)
 std::unordered_map<const void*, uint64_t> g_lochash;
 int g_yield_rounds = 0;
 int g_cost = 0;  // preemptions/deviations spent so far in this execution
@@ -93,6 +99,17 @@ inline uint64_t mix(uint64_t h, uint64_t v) {
   h *= 0xff51afd7ed558ccdull;
   h ^= h >> 33;
   return h;
+}
+
+// store-buffer mode: all buffered stores of t become visible (memory already holds them: the shadows are dropped)
+void sb_flush(T& t) {
+  if (t.sb.empty()) return;
+  g_sb_total -= (int)t.sb.size();
+  t.sb.clear();
+  t.hist = mix(t.hist, 0xf1a5);
+  ++g_write_epoch;
+  g_yield_rounds = 0;
+  for (auto& x : g_threads) if (x->st == YIELDED) x->st = RUNNABLE;
 }
 
 [[noreturn]] void die(const char* props, const char* key, const char* msg) {
@@ -152,7 +169,7 @@ std::string describe_blocked() {
 uint64_t state_hash(int self, uint64_t salt) {
   uint64_t h = mix(salt, (uint64_t)(self + 2));
   h = mix(h, (uint64_t)(g_now - kEpoch));
-  for (auto& t : g_threads) h = mix(h, mix(t->hist, (uint64_t)t->st * 31 + (uint64_t)t->wk * 7 + t->ring.size() * 131 + t->id));
+  for (auto& t : g_threads) h = mix(h, mix(t->hist, (uint64_t)t->st * 31 + (uint64_t)t->wk * 7 + t->ring.size() * 131 + t->sb.size() * 1009 + t->id));
   return h;
 }
 
@@ -269,6 +286,7 @@ void switch_to(int self, int next) {
 
 // block the calling thread (its wait descriptor is already set) until the scheduler picks it again
 void block_self(T& me) {
+  sb_flush(me);   // a blocking call is a full barrier
   me.st = BLOCKED;
   for (;;) {
     int next = decide(me.id, false, false);
@@ -319,6 +337,7 @@ void run_logical(T* t) {
   t->body();
   Ign ig;
   tl_in_rt = true;
+  sb_flush(*t);
   t->st = FINISHED;
   int id = t->id;
   int next = decide(id, false, false);
@@ -422,17 +441,89 @@ void point(const void* addr, int kind) {
   g_rec->steps = g_steps;
   int next = decide(tl_self, true, false);
   switch_to(tl_self, next);
+  // read-modify-write, lock, thread and kernel operations are full barriers: the caller's buffered stores drain with them
+  if (g_sb_total && kind != K_LOAD && kind != K_STORE && kind != K_FENCE && kind != K_CHOICE) sb_flush(*g_threads[tl_self]);
 }
 
-void observed(const void* addr, int kind, uint64_t value, bool wrote) {
+bool tso_active() { return g_cfg.tso && !g_sequential && tl_self >= 0 && !tl_in_rt; }
+
+void tso_drain_self() {
+  if (tl_self < 0 || tl_in_rt || !g_sb_total) return;
+  Ign ig; RtGuard rg;
+  sb_flush(*g_threads[tl_self]);
+}
+
+void tso_store(const void* addr, uint64_t old_bits, uint64_t new_bits) {
+  if (tl_self < 0 || tl_in_rt) return;
+  Ign ig; RtGuard rg;
+  T& me = *g_threads[tl_self];
+  for (auto& e : me.sb) if (e.addr == addr) { e.written = new_bits; return; }   // still behind the earlier store to addr
+  bool delay;
+  if (!me.sb.empty()) {
+    delay = true;   // the buffer is first-in first-out: a store cannot overtake an earlier buffered one
+  } else {
+    // explored choice: 0 = visible at once (the sequentially consistent behaviour), 1 = stays in the store buffer until
+    // this thread's next barrier (costs one unit of the deviation budget)
+    uint32_t pos = g_rec->npoints.load(std::memory_order_relaxed);
+    int idx = 0;
+    if (pos < g_nprefix) {
+      idx = g_prefix[pos];
+      if (idx >= 2) die("!", "replay-divergence", "store-buffer choice out of range while replaying a prefix");
+    }
+    record_point(2, (uint32_t)idx, PF_COSTALL);
+    delay = idx == 1;
+    if (delay) ++g_cost;
+  }
+  me.hist = mix(me.hist, 0x7500 + (delay ? 1 : 0));
+  if (!delay) return;
+  uint64_t lh = 0;
+  { auto it = g_lochash.find(addr); if (it != g_lochash.end()) lh = it->second; }
+  me.sb.push_back(T::SbEnt{addr, old_bits, lh, new_bits});
+  ++g_sb_total;
+}
+
+namespace {
+T::SbEnt* sb_find(const void* addr, int self, uint64_t mem_bits) {
+  for (auto& t : g_threads) {
+    if (t->id == self) continue;
+    for (size_t i = 0; i < t->sb.size(); ++i) {
+      auto& e = t->sb[i];
+      if (e.addr != addr) continue;
+      if (e.written != mem_bits) {
+        // memory no longer holds the buffered store: the object was re-initialised or written by unhooked code; the
+        // entry means nothing any more
+        t->sb.erase(t->sb.begin() + (long)i); --g_sb_total;
+        return nullptr;
+      }
+      return &e;
+    }
+  }
+  return nullptr;
+}
+}  // namespace
+
+uint64_t* tso_shadow(const void* addr, uint64_t mem_bits) {
+  if (!g_sb_total || tl_self < 0 || tl_in_rt) return nullptr;
+  Ign ig; RtGuard rg;
+  T::SbEnt* e = sb_find(addr, tl_self, mem_bits);
+  return e ? &e->visible : nullptr;
+}
+
+static void observed_impl(const void* addr, int kind, uint64_t value, bool wrote, bool shadow) {
   if (tl_self < 0 || tl_in_rt) return;
   Ign ig; RtGuard rg;
   T& me = *g_threads[tl_self];
   uint64_t lh = 0;
-  if (addr) { auto it = g_lochash.find(addr); if (it != g_lochash.end()) lh = it->second; }
-  me.hist = mix(mix(mix(me.hist, (uint64_t)kind), lh), value);
+  T::SbEnt* se = nullptr;
+  if (shadow) {
+    // the access was served from / applied to the value that is visible while another thread's store is still buffered
+    for (auto& t : g_threads) { if (t->id == tl_self) continue; for (auto& e : t->sb) if (e.addr == addr) se = &e; }
+    if (se) lh = se->vis_lochash;
+  } else if (addr) { auto it = g_lochash.find(addr); if (it != g_lochash.end()) lh = it->second; }
+  me.hist = mix(mix(mix(me.hist, (uint64_t)kind + (shadow ? 0x40 : 0)), lh), value);
   if (wrote) {
-    if (addr) g_lochash[addr] = mix(me.hist, (uint64_t)me.id + 77);
+    if (se) se->vis_lochash = mix(me.hist, (uint64_t)me.id + 77);
+    else if (addr && !shadow) g_lochash[addr] = mix(me.hist, (uint64_t)me.id + 77);
     ++g_write_epoch;
     g_yield_rounds = 0;
     for (auto& t : g_threads) if (t->st == YIELDED) t->st = RUNNABLE;
@@ -452,11 +543,14 @@ void observed(const void* addr, int kind, uint64_t value, bool wrote) {
   }
   if (!spin) return;
   me.ring.clear();
+  sb_flush(me);   // a store does not stay buffered for ever: a thread that only spins has drained its buffer
   me.st = YIELDED;
   int next = decide(tl_self, false, true);
   if (next != tl_self) switch_to(tl_self, next);
   me.st = RUNNABLE;
 }
+void observed(const void* addr, int kind, uint64_t value, bool wrote) { observed_impl(addr, kind, value, wrote, false); }
+void observed_shadow(const void* addr, int kind, uint64_t value, bool wrote) { observed_impl(addr, kind, value, wrote, true); }
 
 void yield_now() {
   if (tl_self < 0 || tl_in_rt) return;
@@ -465,6 +559,7 @@ void yield_now() {
   ++g_steps;
   if (g_steps > g_cfg.max_steps) die("*", "horizon", "execution did not terminate within the step horizon (unbounded loop?)");
   me.hist = mix(me.hist, 0x5151);
+  sb_flush(me);
   me.st = YIELDED;
   int next = decide(tl_self, false, true);
   if (next != tl_self) switch_to(tl_self, next);
@@ -600,13 +695,32 @@ static bool cv_wait_impl(CondVar* cv, Mutex* m, bool timed, long long deadline) 
   if (m->owner != tl_self) die("*", "mutex-misuse", "condition_variable wait without owning the mutex");
   m->owner = -1; m->depth = 0;
   tl_in_rt = false; observed(m, K_UNLOCK, 0, true); tl_in_rt = true;
-  cv->waiters.push_back(tl_self);
-  me.wk = W_CV; me.wcv = cv; me.wm = m; me.timed = timed; me.deadline = deadline;
-  block_self(me);
+  // spurious wake-up (--spurious): the wait returns without any notification, as the standard allows; explored as a
+  // two-way choice costing one unit of the budget. (Returning right away is the strongest form: no notifier has run yet.)
+  bool spurious = false;
+  if (g_cfg.spurious && !g_sequential) {
+    uint32_t pos = g_rec->npoints.load(std::memory_order_relaxed);
+    int idx = 0;
+    if (pos < g_nprefix) {
+      idx = g_prefix[pos];
+      if (idx >= 2) die("!", "replay-divergence", "spurious-wake choice out of range while replaying a prefix");
+    }
+    record_point(2, (uint32_t)idx, PF_COSTALL);
+    spurious = idx == 1;
+    if (spurious) ++g_cost;
+    me.hist = mix(me.hist, 0x5b00 + (spurious ? 1 : 0));
+  }
   bool timed_out = false;
-  if (in_waiters(cv, tl_self)) {
-    timed_out = true;
-    cv->waiters.erase(std::find(cv->waiters.begin(), cv->waiters.end(), tl_self));
+  if (spurious) {
+    if (m->owner != -1) { me.wk = W_MUTEX; me.wm = m; block_self(me); }
+  } else {
+    cv->waiters.push_back(tl_self);
+    me.wk = W_CV; me.wcv = cv; me.wm = m; me.timed = timed; me.deadline = deadline;
+    block_self(me);
+    if (in_waiters(cv, tl_self)) {
+      timed_out = true;
+      cv->waiters.erase(std::find(cv->waiters.begin(), cv->waiters.end(), tl_self));
+    }
   }
   m->owner = tl_self; m->depth = 1;
   tl_in_rt = false;
@@ -674,7 +788,7 @@ void run_once(const HarnessInfo& h, const uint16_t* prefix, uint32_t nprefix) {
   g_now = kEpoch;
   g_prefix = prefix; g_nprefix = nprefix;
   g_threads.clear();
-  g_steps = 0; g_write_epoch = 0; g_lochash.clear(); g_yield_rounds = 0; g_cost = 0;
+  g_steps = 0; g_write_epoch = 0; g_sb_total = 0; g_lochash.clear(); g_yield_rounds = 0; g_cost = 0;
   g_expect_terminate = false;
   g_outcome.clear();
   ++g_exec_index;
